@@ -1,15 +1,23 @@
 package main
 
 // Stage (b): documents from the harness's own writer, sent as REPORT to the real
-// carddav.Handler with a recording carddav.Backend.
+// carddav.Handler with a recording carddav.Backend.  A case is one request, or a
+// sequence of requests served by ONE handler and ONE backend value (consecutively, or
+// overlapping from several goroutines); every request is judged by the model on its own
+// inputs, and what the backend was handed is kept and compared again when the sequence
+// is over (a server that reuses or rewrites a value it gave to the backend shows there).
 
 import (
 	"bytes"
 	"context"
 	"errors"
+	"io"
+	"net/http"
 	"net/http/httptest"
 	"net/url"
 	"strconv"
+	"sync"
+	"testing/iotest"
 
 	"github.com/emersion/go-vcard"
 	"github.com/emersion/go-webdav"
@@ -18,7 +26,26 @@ import (
 	"verifharness/hx"
 )
 
-type recorder struct{ calls []string }
+type recCall struct {
+	sx   string
+	q    *carddav.AddressBookQuery
+	data *carddav.AddressDataRequest
+}
+
+type ctxKey struct{}
+
+// recorder attributes every backend call to the request whose context carries its id.
+type recorder struct {
+	mu    sync.Mutex
+	calls map[int][]recCall
+}
+
+func (b *recorder) add(ctx context.Context, c recCall) {
+	id, _ := ctx.Value(ctxKey{}).(int)
+	b.mu.Lock()
+	b.calls[id] = append(b.calls[id], c)
+	b.mu.Unlock()
+}
 
 var errNotFound = webdav.NewHTTPError(404, errors.New("not found"))
 
@@ -30,45 +57,173 @@ func (b *recorder) GetAddressBook(ctx context.Context, path string) (*carddav.Ad
 	return nil, errNotFound
 }
 func (b *recorder) CreateAddressBook(ctx context.Context, ab *carddav.AddressBook) error { return nil }
-func (b *recorder) DeleteAddressBook(ctx context.Context, path string) error            { return nil }
+func (b *recorder) DeleteAddressBook(ctx context.Context, path string) error             { return nil }
 func (b *recorder) GetAddressObject(ctx context.Context, path string, req *carddav.AddressDataRequest) (*carddav.AddressObject, error) {
-	b.calls = append(b.calls, hx.L("g", hx.S(path), dataSx(req)))
+	b.add(ctx, recCall{sx: hx.L("g", hx.S(path), dataSx(req)), data: req})
 	return nil, errNotFound
 }
 func (b *recorder) ListAddressObjects(ctx context.Context, path string, req *carddav.AddressDataRequest) ([]carddav.AddressObject, error) {
-	b.calls = append(b.calls, "(other)")
+	b.add(ctx, recCall{sx: "(other)"})
 	return nil, nil
 }
 func (b *recorder) QueryAddressObjects(ctx context.Context, path string, q *carddav.AddressBookQuery) ([]carddav.AddressObject, error) {
-	b.calls = append(b.calls, hx.L("q", hx.S(path), querySx(q)))
+	b.add(ctx, recCall{sx: hx.L("q", hx.S(path), querySx(q)), q: q})
 	return nil, nil
 }
 func (b *recorder) PutAddressObject(ctx context.Context, path string, card vcard.Card, opts *carddav.PutAddressObjectOptions) (*carddav.AddressObject, error) {
-	b.calls = append(b.calls, "(other)")
+	b.add(ctx, recCall{sx: "(other)"})
 	return nil, nil
 }
 func (b *recorder) DeleteAddressObject(ctx context.Context, path string) error {
-	b.calls = append(b.calls, "(other)")
+	b.add(ctx, recCall{sx: "(other)"})
 	return nil
 }
 func (b *recorder) CurrentUserPrincipal(ctx context.Context) (string, error) { return "/", nil }
 
-const reportPath = "/ab/book/"
+// ---- how a request is put together from the seed (everything here must be irrelevant
+// to the answer: the model is not told) -------------------------------------------------
 
-func observeServer(doc []byte, contentType string) (obs string) {
-	rec := &recorder{}
+var (
+	contentTypes = []string{"application/xml", "text/xml; charset=\"utf-8\"", "application/xml", "Application/XML",
+		"text/xml;charset=UTF-8", " application/xml", "application/xml ; charset=utf-8", "TEXT/XML"}
+	depths       = []string{"1", "", "0", "infinity", "junk"}
+	prefixes     = []string{"", "/", "/dav", "/dav/"}
+	requestPaths = []string{"/ab/book/", "/ab/book/", "/ab/b%20k/", "/ab//book/./x"}
+)
+
+const (
+	dExact = iota
+	dUnknown
+	dLarger
+	dOneByte
+	dDataEOF
+	dCloseFails
+	dChunked
+)
+
+type envOf struct {
+	ct, depth, prefix, target string
+	twoCT                     bool
+	delivery                  int
+}
+
+func envFromSeed(seed uint64) envOf {
+	if seed == 0 {
+		return envOf{ct: contentTypes[0], depth: "1", target: requestPaths[0]}
+	}
+	s := seed &^ (mutateFlag | emptyFlag | truncFlag)
+	e := envOf{
+		ct:     contentTypes[s%8],
+		twoCT:  s%16 == 7,
+		depth:  depths[(s/8)%5],
+		prefix: prefixes[(s/40)%4],
+		target: requestPaths[(s/160)%4],
+	}
+	switch (s / 64) % 12 {
+	case 4:
+		e.delivery = dUnknown
+	case 5:
+		e.delivery = dLarger
+	case 6:
+		e.delivery = dOneByte
+	case 7:
+		e.delivery = dDataEOF
+	case 8:
+		e.delivery = dCloseFails
+	case 9:
+		if (s/768)%4 == 0 {
+			e.delivery = dChunked
+		}
+	}
+	return e
+}
+
+type plainReader struct{ r io.Reader } // hides Len(): the length is unknown
+
+func (p plainReader) Read(b []byte) (int, error) { return p.r.Read(b) }
+
+type closeFails struct{ io.Reader }
+
+func (closeFails) Close() error { return errors.New("close failed") }
+
+func newReport(e envOf, doc []byte, id int) *http.Request {
+	var req *http.Request
+	switch e.delivery {
+	case dUnknown:
+		req = httptest.NewRequest("REPORT", e.target, plainReader{bytes.NewReader(doc)})
+	case dLarger:
+		req = httptest.NewRequest("REPORT", e.target, bytes.NewReader(doc))
+		req.ContentLength = int64(len(doc)) + 7
+	case dOneByte:
+		req = httptest.NewRequest("REPORT", e.target, plainReader{iotest.OneByteReader(bytes.NewReader(doc))})
+	case dDataEOF:
+		req = httptest.NewRequest("REPORT", e.target, plainReader{iotest.DataErrReader(bytes.NewReader(doc))})
+	case dCloseFails:
+		req = httptest.NewRequest("REPORT", e.target, nil)
+		req.Body = closeFails{bytes.NewReader(doc)}
+		req.ContentLength = int64(len(doc))
+	default:
+		if len(doc) == 0 {
+			req = httptest.NewRequest("REPORT", e.target, nil)
+			req.Body = http.NoBody
+			req.ContentLength = 0
+		} else {
+			req = httptest.NewRequest("REPORT", e.target, bytes.NewReader(doc))
+		}
+	}
+	req.Header.Set("Content-Type", e.ct)
+	if e.twoCT {
+		req.Header.Add("Content-Type", "text/plain")
+	}
+	if e.depth != "" {
+		req.Header.Set("Depth", e.depth)
+	}
+	return req.WithContext(context.WithValue(req.Context(), ctxKey{}, id))
+}
+
+// targetPath is r.URL.Path for the request target, as net/http reads it.
+func targetPath(target string) string {
+	return httptest.NewRequest("REPORT", target, nil).URL.Path
+}
+
+type idHandler struct{ h http.Handler }
+
+func (w idHandler) ServeHTTP(rw http.ResponseWriter, r *http.Request) {
+	id, _ := strconv.Atoi(r.Header.Get("X-Verif-Id"))
+	w.h.ServeHTTP(rw, r.WithContext(context.WithValue(r.Context(), ctxKey{}, id)))
+}
+
+// serveOne returns (panicked, status).
+func serveOne(h *carddav.Handler, e envOf, doc []byte, id int) (panicked bool, status int) {
 	defer func() {
 		if r := recover(); r != nil {
-			obs = hx.L(append([]string{"obs", "1", "0"}, rec.calls...)...)
+			panicked, status = true, 0
 		}
 	}()
-	h := &carddav.Handler{Backend: rec}
-	req := httptest.NewRequest("REPORT", reportPath, bytes.NewReader(doc))
-	req.Header.Set("Content-Type", contentType)
-	req.Header.Set("Depth", "1")
+	if e.delivery == dChunked {
+		srv := httptest.NewServer(idHandler{h})
+		defer srv.Close()
+		req, err := http.NewRequest("REPORT", srv.URL+e.target, plainReader{bytes.NewReader(doc)})
+		if err != nil {
+			return true, 0
+		}
+		req.ContentLength = -1 // chunked
+		req.Header.Set("Content-Type", e.ct)
+		if e.depth != "" {
+			req.Header.Set("Depth", e.depth)
+		}
+		req.Header.Set("X-Verif-Id", strconv.Itoa(id))
+		resp, err := srv.Client().Do(req)
+		if err != nil {
+			return true, 0 // the server goroutine recovered a panic and dropped the connection
+		}
+		io.Copy(io.Discard, resp.Body)
+		resp.Body.Close()
+		return false, resp.StatusCode
+	}
 	w := httptest.NewRecorder()
-	h.ServeHTTP(w, req)
-	return hx.L(append([]string{"obs", "0", strconv.Itoa(w.Code)}, rec.calls...)...)
+	h.ServeHTTP(w, newReport(e, doc, id))
+	return false, w.Code
 }
 
 // upTable: url.Parse applied to every href text of the raw request and to the character
@@ -107,28 +262,115 @@ func upTable(r *xReq, root *node) string {
 	return hx.L(items...)
 }
 
-// execServer writes the raw request with the lexical style drawn from seed, parses the
-// bytes back with encoding/xml's tokenizer (that tree is what the model is given) and
-// sends the same bytes to the handler.
-func execServer(r *xReq, seed uint64) string {
-	st := newStyle(seed)
-	doc := st.render(docOf(r))
-	root, err := parseTree(doc)
-	var treeSx string
-	if err != nil {
-		// the writer produced something the tokenizer refuses: a harness fault, made visible
-		treeSx = hx.L("t", hx.S("unparsable: "+err.Error()))
+type serverStep struct {
+	r    *xReq
+	seed uint64
+}
+
+func (s serverStep) sx() string { return hx.L(strconv.FormatUint(s.seed, 10), s.r.sx()) }
+
+// execServerSeq writes every raw request with the lexical style drawn from its seed,
+// parses the bytes back with encoding/xml's tokenizer (that tree is what the model is
+// given) and sends the same bytes to ONE handler with ONE backend, one after the other or
+// (overlap) all at once.  One line per request; the line of request k names requests
+// 0..k-1 as its history (after ...), which -replay serves again.
+func execServerSeq(steps []serverStep, overlap bool) []string {
+	rec := &recorder{calls: map[int][]recCall{}}
+	n := len(steps)
+	type prepared struct {
+		doc, orig []byte
+		in        string
+		e         envOf
+	}
+	ps := make([]prepared, n)
+	hist := []string{"after"}
+	if overlap {
+		hist = []string{"overlap"}
+	}
+	for i, s := range steps {
+		st := newStyle(s.seed)
+		doc := st.render(docOf(s.r))
+		root, err := parseTree(doc)
+		var treeSx string
+		if err != nil {
+			// empty or cut-off body of the malformed stream, or a writer fault made visible
+			treeSx = hx.L("t", hx.S("unparsable: "+err.Error()))
+		} else {
+			treeSx = root.sx()
+		}
+		xr := s.r.sx()
+		if st.mutated {
+			xr = hx.L("mut", xr)
+		}
+		e := envFromSeed(s.seed)
+		items := []string{"server", hx.S(targetPath(e.target)), strconv.FormatUint(s.seed, 10), upTable(s.r, root), xr, treeSx}
+		if i > 0 || overlap {
+			h := append([]string(nil), hist...)
+			if overlap { // all the others
+				for j, o := range steps {
+					if j != i {
+						h = append(h, o.sx())
+					}
+				}
+			}
+			items = append(items, hx.L(h...))
+		}
+		if !overlap {
+			hist = append(hist, s.sx())
+		}
+		ps[i] = prepared{doc: doc, orig: append([]byte(nil), doc...), in: hx.L(items...), e: e}
+	}
+	h := &carddav.Handler{Backend: rec}
+	panicked := make([]bool, n)
+	status := make([]int, n)
+	if overlap {
+		h.Prefix = ps[0].e.prefix
+		var wg sync.WaitGroup
+		for i := range ps {
+			wg.Add(1)
+			go func(i int) {
+				defer wg.Done()
+				panicked[i], status[i] = serveOne(h, ps[i].e, ps[i].doc, i)
+			}(i)
+		}
+		wg.Wait()
 	} else {
-		treeSx = root.sx()
+		for i := range ps {
+			h.Prefix = ps[i].e.prefix
+			panicked[i], status[i] = serveOne(h, ps[i].e, ps[i].doc, i)
+		}
 	}
-	ct := "application/xml"
-	if seed%3 == 1 {
-		ct = "text/xml; charset=\"utf-8\""
+	lines := make([]string, n)
+	for i := range ps {
+		p := "0"
+		if panicked[i] {
+			p = "1"
+		}
+		items := []string{"obs", p, strconv.Itoa(status[i])}
+		rec.mu.Lock()
+		calls := rec.calls[i]
+		rec.mu.Unlock()
+		for _, c := range calls {
+			items = append(items, c.sx)
+			// what the backend was handed, looked at again now that everything is over
+			now := c.sx
+			if c.q != nil {
+				now = hx.L("q", hx.MustParse(c.sx)[0].Args()[0].String(), querySx(c.q))
+			} else if c.data != nil {
+				now = hx.L("g", hx.MustParse(c.sx)[0].Args()[0].String(), dataSx(c.data))
+			}
+			if now != c.sx {
+				items = append(items, "(bad backend-argument-changed-later)")
+			}
+		}
+		if !bytes.Equal(ps[i].doc, ps[i].orig) {
+			items = append(items, "(bad request-bytes-modified)")
+		}
+		lines[i] = ps[i].in + " " + hx.L(items...)
 	}
-	xr := r.sx()
-	if st.mutated {
-		xr = hx.L("mut", xr)
-	}
-	in := hx.L("server", hx.S(reportPath), strconv.FormatUint(seed, 10), upTable(r, root), xr, treeSx)
-	return in + " " + observeServer(doc, ct)
+	return lines
+}
+
+func execServer(r *xReq, seed uint64) string {
+	return execServerSeq([]serverStep{{r, seed}}, false)[0]
 }
